@@ -39,4 +39,485 @@ def Dispatch.Equiv : Dispatch Val → Dispatch Val → Prop
   | .skip c t, .skip c' t' => c = c' ∧ t = t'
   | _, _ => False
 
+/-! ### association-list facts -/
+
+section Dict
+
+variable {κ β : Type} [DecidableEq κ]
+
+theorem aupdate_nil (m : List (κ × β)) : aupdate m [] = m := rfl
+
+theorem aupdate_cons (m : List (κ × β)) (kv : κ × β) (o : List (κ × β)) :
+    aupdate m (kv :: o) = aupdate (upsert m kv.1 kv.2) o := rfl
+
+/-- `d.update(other)` for a dict `other`: the new value is the one of `other` if it has the
+key, else the old one. -/
+theorem alookup_aupdate_of_nodup (m : List (κ × β)) {o : List (κ × β)} (hn : (akeys o).Nodup)
+    (x : κ) : alookup (aupdate m o) x = (alookup o x).orElse (fun _ => alookup m x) := by
+  induction o generalizing m with
+  | nil => simp [aupdate]
+  | cons e o ih =>
+    obtain ⟨k, v⟩ := e
+    simp only [akeys_cons, List.nodup_cons] at hn
+    rw [aupdate_cons, ih _ hn.2, alookup_upsert, alookup_cons]
+    by_cases hk : k = x
+    · subst hk
+      have : alookup o k = none := alookup_eq_none_iff.2 hn.1
+      simp [this]
+    · simp [hk]
+
+/-- `d.update(items)` for an arbitrary item list: later duplicates win. -/
+theorem alookup_aupdate (m o : List (κ × β)) (x : κ) :
+    alookup (aupdate m o) x = (alookup (aupdate [] o) x).orElse (fun _ => alookup m x) := by
+  induction o generalizing m with
+  | nil => simp [aupdate]
+  | cons e o ih =>
+    obtain ⟨k, v⟩ := e
+    rw [aupdate_cons, ih, aupdate_cons, ih (upsert [] k v)]
+    cases h : alookup (aupdate [] o) x with
+    | some a => simp
+    | none =>
+      simp only [Option.orElse_none, alookup_upsert, alookup_nil]
+      split <;> simp
+
+theorem nodup_akeys_aupdate {m : List (κ × β)} (hn : (akeys m).Nodup) (o : List (κ × β)) :
+    (akeys (aupdate m o)).Nodup := by
+  induction o generalizing m with
+  | nil => exact hn
+  | cons e o ih => exact ih (nodup_akeys_upsert hn _ _)
+
+/-- a non-empty association list has a key with a value. -/
+theorem ne_nil_iff_exists_alookup {m : List (κ × β)} :
+    m ≠ [] ↔ ∃ k v, alookup m k = some v := by
+  cases m with
+  | nil => simp
+  | cons e m =>
+    obtain ⟨k, v⟩ := e
+    simp only [ne_eq, reduceCtorEq, not_false_eq_true, true_iff]
+    exact ⟨k, v, by simp [alookup_cons]⟩
+
+theorem option_ext_some {o1 o2 : Option β} (h : ∀ v, o1 = some v ↔ o2 = some v) : o1 = o2 := by
+  cases o1 with
+  | none =>
+    cases o2 with
+    | none => rfl
+    | some b => exact ((h b).2 rfl).symm ▸ rfl
+  | some a => exact ((h a).1 rfl).symm
+
+/-- at most one element of a list passes a filter of length ≤ 1. -/
+theorem eq_of_filter_length_le_one {α : Type} {l : List α} {p : α → Bool}
+    (h : (l.filter p).length ≤ 1) {x y : α} (hx : x ∈ l) (hy : y ∈ l) (px : p x = true)
+    (py : p y = true) : x = y := by
+  have mx : x ∈ l.filter p := List.mem_filter.2 ⟨hx, px⟩
+  have my : y ∈ l.filter p := List.mem_filter.2 ⟨hy, py⟩
+  match hl : l.filter p, h, mx, my with
+  | [], _, mx, _ => simp at mx
+  | [z], _, mx, my =>
+    simp at mx my; rw [mx, my]
+  | _ :: _ :: _, h, _, _ => simp at h
+
+end Dict
+
+/-! ### `dispatchOf` -/
+
+@[simp] theorem dispatchOf_nil (c : Comp) : dispatchOf ([] : List (Ev Val)) c = none := rfl
+
+theorem dispatchOf_cons_dispatch (d : Dispatch Val) (tr : List (Ev Val)) (c : Comp) :
+    dispatchOf (Ev.dispatch d :: tr) c = if d.comp = c then some d else dispatchOf tr c := by
+  simp only [dispatchOf, List.findSome?_cons]
+  split <;> rename_i h <;> split at h <;> simp_all
+
+theorem dispatchOf_cons_answer (a : Comp) (ch : List (Port × Val)) (tr : List (Ev Val)) (c : Comp) :
+    dispatchOf (Ev.answer a ch :: tr) c = dispatchOf tr c := by
+  simp [dispatchOf]
+
+theorem dispatchOf_eq_none_iff {tr : List (Ev Val)} {c : Comp} :
+    dispatchOf tr c = none ↔ ∀ d, Ev.dispatch d ∈ tr → d.comp ≠ c := by
+  induction tr with
+  | nil => simp
+  | cons e tr ih =>
+    cases e with
+    | dispatch d' =>
+      rw [dispatchOf_cons_dispatch]
+      by_cases h : d'.comp = c
+      · simp only [h, if_true, reduceCtorEq, false_iff]
+        exact fun hh => hh d' (by simp) h
+      · simp only [h, if_false, ih, List.mem_cons, Ev.dispatch.injEq]
+        constructor
+        · rintro hh d (rfl | hd)
+          · exact h
+          · exact hh d hd
+        · exact fun hh d hd => hh d (Or.inr hd)
+    | answer a ch =>
+      rw [dispatchOf_cons_answer, ih]
+      simp
+
+theorem dispatchOf_eq_some {tr : List (Ev Val)} {c : Comp} {d : Dispatch Val}
+    (h : dispatchOf tr c = some d) : Ev.dispatch d ∈ tr ∧ d.comp = c := by
+  induction tr with
+  | nil => simp at h
+  | cons e tr ih =>
+    cases e with
+    | dispatch d' =>
+      rw [dispatchOf_cons_dispatch] at h
+      by_cases hc : d'.comp = c
+      · simp only [hc, if_true, Option.some.injEq] at h
+        subst h; exact ⟨by simp, hc⟩
+      · simp only [hc, if_false] at h
+        exact ⟨List.mem_cons_of_mem _ (ih h).1, (ih h).2⟩
+    | answer a ch =>
+      rw [dispatchOf_cons_answer] at h
+      exact ⟨List.mem_cons_of_mem _ (ih h).1, (ih h).2⟩
+
+/-- with at most one dispatch per component, `dispatchOf` finds *the* dispatch. -/
+theorem dispatchOf_eq_of_mem {tr : List (Ev Val)} {d : Dispatch Val}
+    (hcount : (tr.filter (Ev.isDispatchOf d.comp)).length ≤ 1) (hd : Ev.dispatch d ∈ tr) :
+    dispatchOf tr d.comp = some d := by
+  cases h : dispatchOf tr d.comp with
+  | none => exact absurd rfl (dispatchOf_eq_none_iff.1 h d hd)
+  | some d' =>
+    obtain ⟨hd', hc⟩ := dispatchOf_eq_some h
+    have := eq_of_filter_length_le_one hcount hd' hd (by simp [Ev.isDispatchOf, hc])
+      (by simp [Ev.isDispatchOf])
+    cases this; rfl
+
+/-! ### `addInputs` and routing -/
+
+theorem addInputs_cons (inputs : List (Comp × List (Port × Val))) (e : Comp × List (Port × Val))
+    (routed : List (Comp × List (Port × Val))) :
+    addInputs inputs (e :: routed) =
+      addInputs (upsert inputs e.1 (aupdate (agetD inputs e.1 []) e.2)) routed := rfl
+
+/-- `self.inputs[c].update(change)` for every routed `(c, change)`: per component. -/
+theorem alookup_addInputs (inputs : List (Comp × List (Port × Val)))
+    {routed : List (Comp × List (Port × Val))} (hn : (akeys routed).Nodup) (c : Comp) :
+    alookup (addInputs inputs routed) c =
+      match alookup routed c with
+      | some ch => some (aupdate (agetD inputs c []) ch)
+      | none => alookup inputs c := by
+  induction routed generalizing inputs with
+  | nil => rfl
+  | cons e routed ih =>
+    obtain ⟨k, ch⟩ := e
+    simp only [akeys_cons, List.nodup_cons] at hn
+    rw [addInputs_cons, ih _ hn.2, alookup_cons]
+    by_cases hk : k = c
+    · subst hk
+      rw [alookup_eq_none_iff.2 hn.1]
+      simp [alookup_upsert]
+    · simp only [hk, if_false, agetD, alookup_upsert]
+
+theorem agetD_addInputs (inputs : List (Comp × List (Port × Val)))
+    {routed : List (Comp × List (Port × Val))} (hn : (akeys routed).Nodup) (c : Comp) :
+    agetD (addInputs inputs routed) c [] = aupdate (agetD inputs c []) (agetD routed c []) := by
+  rw [agetD, alookup_addInputs inputs hn]
+  cases h : alookup routed c with
+  | none => simp [agetD, h, aupdate]
+  | some ch => simp [agetD, h]
+
+theorem RouterOK.alookup_agetD_route {w : Wiring} (hw : RouterOK w) (a : Comp)
+    (ch : List (Port × Val)) (hch : (akeys ch).Nodup) (c : Comp) (q : Port) (v : Val) :
+    alookup (agetD (w.route a ch) c []) q = some v ↔ ∃ p, alookup ch p = some v ∧ w.Conn a p c q := by
+  rw [← hw.route_exact a ch hch c q v]
+  cases h : alookup (w.route a ch) c with
+  | none => simp [agetD, h]
+  | some m => simp [agetD, h]
+
+theorem RouterOK.nodup_agetD_route {w : Wiring} (hw : RouterOK w) (a : Comp)
+    (ch : List (Port × Val)) (c : Comp) : (akeys (agetD (w.route a ch) c [])).Nodup := by
+  cases h : alookup (w.route a ch) c with
+  | none => simp [agetD, h]
+  | some m =>
+    simp only [agetD, h, Option.getD_some]
+    exact ((hw.route_wf a ch).2 (c, m) (mem_of_alookup_eq_some h)).1
+
+/-! ### the accumulator `inputs` -/
+
+/-- input port `q` of `c` was reported changed to `v` by an answer in `tr`. -/
+def Changed (w : Wiring) (tr : List (Ev Val)) (c : Comp) (q : Port) (v : Val) : Prop :=
+  ∃ a chs p, Ev.answer a chs ∈ tr ∧ w.Conn a p c q ∧ alookup chs p = some v
+
+/-- the accumulator holds exactly the values routed from the answers given so far. -/
+def InputsInv (w : Wiring) (inputs : List (Comp × List (Port × Val))) (tr : List (Ev Val)) : Prop :=
+  ∀ c q v, alookup (agetD inputs c []) q = some v ↔ Changed w tr c q v
+
+theorem Changed.congr {w : Wiring} {tr tr' : List (Ev Val)}
+    (he : ∀ a chs, Ev.answer (Val := Val) a chs ∈ tr ↔ Ev.answer a chs ∈ tr') (c : Comp) (q : Port)
+    (v : Val) : Changed w tr c q v ↔ Changed w tr' c q v := by
+  constructor <;> rintro ⟨a, chs, p, h1, h2⟩
+  · exact ⟨a, chs, p, (he _ _).1 h1, h2⟩
+  · exact ⟨a, chs, p, (he _ _).2 h1, h2⟩
+
+theorem InputsInv.congr {w : Wiring} {inputs : List (Comp × List (Port × Val))}
+    {tr tr' : List (Ev Val)} (h : InputsInv w inputs tr)
+    (he : ∀ a chs, Ev.answer a chs ∈ tr ↔ Ev.answer a chs ∈ tr') : InputsInv w inputs tr' :=
+  fun c q v => (h c q v).trans (Changed.congr he c q v)
+
+theorem InputsInv.nil (w : Wiring) : InputsInv (Val := Val) w [] [] := by
+  intro c q v
+  simp [agetD, Changed]
+
+/-- taking in the (first) answer of `src`. -/
+theorem InputsInv.answer {w : Wiring} (hw : RouterOK w) {inputs : List (Comp × List (Port × Val))}
+    {tr : List (Ev Val)} (h : InputsInv w inputs tr) {src : Comp} {chs : List (Port × Val)}
+    (hch : (akeys chs).Nodup) (hfresh : ∀ ch', Ev.answer src ch' ∉ tr) :
+    InputsInv w (addInputs inputs (w.route src chs)) (tr ++ [Ev.answer src chs]) := by
+  intro c q v
+  rw [agetD_addInputs _ (hw.route_wf src chs).1,
+    alookup_aupdate_of_nodup _ (hw.nodup_agetD_route src chs c)]
+  constructor
+  · intro hl
+    cases hR : alookup (agetD (w.route src chs) c []) q with
+    | some v' =>
+      rw [hR] at hl
+      simp only [Option.orElse_some, Option.some.injEq] at hl
+      subst hl
+      obtain ⟨p, hp, hc⟩ := (hw.alookup_agetD_route src chs hch c q v').1 hR
+      exact ⟨src, chs, p, by simp, hc, hp⟩
+    | none =>
+      rw [hR] at hl
+      simp only [Option.orElse_none] at hl
+      obtain ⟨a, chs', p, h1, h2⟩ := (h c q v).1 hl
+      exact ⟨a, chs', p, List.mem_append_left _ h1, h2⟩
+  · rintro ⟨a, chs', p, h1, hc, hp⟩
+    simp only [List.mem_append, List.mem_singleton, Ev.answer.injEq] at h1
+    rcases h1 with h1 | ⟨rfl, rfl⟩
+    · have hI := (h c q v).2 ⟨a, chs', p, h1, hc, hp⟩
+      cases hR : alookup (agetD (w.route src chs) c []) q with
+      | none => simp [hI]
+      | some v' =>
+        obtain ⟨p', hp', hc'⟩ := (hw.alookup_agetD_route src chs hch c q v').1 hR
+        obtain ⟨rfl, _⟩ := hw.oneSource _ _ _ _ _ _ hc hc'
+        exact absurd h1 (hfresh _)
+    · have := (hw.alookup_agetD_route a chs' hch c q v).2 ⟨p, hp, hc⟩
+      simp [this]
+
+/-! ### `decide` -/
+
+theorem Ticker.decide_cases (tk : Ticker Val) (c : Comp) :
+    (tk.decide c = .input c tk.time (agetD tk.inputs c []) ∧
+        (agetD tk.inputs c [] ≠ [] ∨ c ∈ tk.roots)) ∨
+      (tk.decide c = .skip c tk.time ∧ agetD tk.inputs c [] = [] ∧ c ∉ tk.roots) := by
+  unfold Ticker.decide
+  simp only []
+  split
+  · rename_i h
+    simp only [Bool.or_eq_true, Bool.not_eq_true', List.isEmpty_eq_false_iff, decide_eq_true_eq]
+      at h
+    exact Or.inl ⟨rfl, h⟩
+  · rename_i h
+    simp only [Bool.or_eq_true, Bool.not_eq_true', List.isEmpty_eq_false_iff, decide_eq_true_eq,
+      not_or, Classical.not_not] at h
+    exact Or.inr ⟨rfl, h⟩
+
+/-- `d` is what `Ticker.decide` yields in a ticker state (of the tick `t`, `roots`) whose
+accumulated inputs reflect exactly the answers in `pre`. -/
+def DecidedFrom (w : Wiring) (t : SimTime) (roots : List Comp) (pre : List (Ev Val))
+    (d : Dispatch Val) : Prop :=
+  ∃ tk : Ticker Val, tk.roots = roots ∧ tk.time = t ∧ InputsInv w tk.inputs pre ∧
+    d = tk.decide d.comp
+
+/-- the content of a dispatch decided from `pre`: `Input` with exactly the changed ports if it
+is a root or something changed, `Skip` otherwise. -/
+theorem DecidedFrom.spec {w : Wiring} {t : SimTime} {roots : List Comp} {pre : List (Ev Val)}
+    {d : Dispatch Val} (h : DecidedFrom w t roots pre d) :
+    (∃ ins, d = .input d.comp t ins ∧ (d.comp ∈ roots ∨ ∃ q v, Changed w pre d.comp q v) ∧
+        ∀ q v, alookup ins q = some v ↔ Changed w pre d.comp q v) ∨
+      (d = .skip d.comp t ∧ d.comp ∉ roots ∧ ∀ q v, ¬ Changed w pre d.comp q v) := by
+  obtain ⟨tk, rfl, rfl, hin, hd⟩ := h
+  rcases tk.decide_cases d.comp with ⟨h1, h2⟩ | ⟨h1, h2, h3⟩
+  · rw [h1] at hd
+    refine Or.inl ⟨_, hd, ?_, fun q v => hin _ q v⟩
+    rcases h2 with h2 | h2
+    · obtain ⟨q, v, hq⟩ := ne_nil_iff_exists_alookup.1 h2
+      exact Or.inr ⟨q, v, (hin _ q v).1 hq⟩
+    · exact Or.inl h2
+  · rw [h1] at hd
+    refine Or.inr ⟨hd, h3, fun q v hc => ?_⟩
+    have := (hin _ q v).2 hc
+    rw [h2] at this
+    simp at this
+
+/-! ### the tick-equation invariant -/
+
+/-- The part of the invariant about the accumulator and the content of dispatches and
+answers; like `PreInv` it also holds between "answer taken in" and the following
+`schedule_possible_updates`. -/
+structure EqPre (w : Wiring) (react : React Val) (t : SimTime) (roots : List Comp)
+    (inputs : List (Comp × List (Port × Val))) (trace : List (Ev Val)) : Prop where
+  /-- the accumulator reflects the answers so far -/
+  inputs : InputsInv w inputs trace
+  /-- every dispatch was decided from the answers preceding it -/
+  dec : ∀ pre d post, trace = pre ++ Ev.dispatch d :: post → DecidedFrom w t roots pre d
+  /-- a dispatched component is known to the inverse tree -/
+  ups : ∀ d, Ev.dispatch d ∈ trace → (w.ups d.comp).isSome = true
+  /-- every answer is the reaction to a dispatch of the trace -/
+  ans : ∀ a chs, Ev.answer a chs ∈ trace →
+    ∃ d, Ev.dispatch d ∈ trace ∧ d.comp = a ∧ chs = answerOf react d
+
+theorem EqPre.start (w : Wiring) (react : React Val) (t : SimTime) (roots : List Comp) :
+    EqPre w react t roots [] [] :=
+  { inputs := InputsInv.nil w
+    dec := by simp
+    ups := by simp
+    ans := by simp }
+
+theorem nodup_akeys_answerOf {react : React Val} (hr : ReactWF react) (d : Dispatch Val) :
+    (akeys (answerOf react d)).Nodup := by
+  cases d with
+  | input c t ins => exact hr c ins
+  | skip c t => simp [answerOf]
+
+theorem EqPre.answer {w : Wiring} (hw : RouterOK w) {react : React Val} (hr : ReactWF react)
+    {t : SimTime} {roots : List Comp} {inputs : List (Comp × List (Port × Val))}
+    {tu : List (Comp × Bool)} {pending : List (Dispatch Val)} {trace : List (Ev Val)}
+    (h : EqPre w react t roots inputs trace) (hp : PreInv w t roots tu pending trace)
+    {d : Dispatch Val} (hd : d ∈ pending) :
+    EqPre w react t roots (addInputs inputs (w.route d.comp (answerOf react d)))
+      (trace ++ [Ev.answer d.comp (answerOf react d)]) := by
+  have h0 : alookup tu d.comp = some true := (hp.pend_flag _).1 ⟨d, hd, rfl⟩
+  have hfresh : ∀ ch', Ev.answer d.comp ch' ∉ trace := by
+    intro ch' hm
+    have := (hp.resolved d.comp (hp.keys_ext _ (by rw [h0]; simp))).2 ⟨ch', hm⟩
+    rw [h0] at this; cases this
+  exact
+    { inputs := h.inputs.answer hw (nodup_akeys_answerOf hr d) hfresh
+      dec := by
+        intro pre d' post htr
+        rcases append_eq_append_cons htr with ⟨post', h1, _⟩ | ⟨pre', _, h2⟩
+        · exact h.dec pre d' post' h1
+        · cases pre' <;> simp at h2
+      ups := by
+        intro d' hd'
+        simp only [List.mem_append, List.mem_singleton, reduceCtorEq, or_false] at hd'
+        exact h.ups d' hd'
+      ans := by
+        intro a chs hm
+        simp only [List.mem_append, List.mem_singleton, Ev.answer.injEq] at hm
+        rcases hm with hm | ⟨rfl, rfl⟩
+        · obtain ⟨d', h1, h2⟩ := h.ans a chs hm
+          exact ⟨d', List.mem_append_left _ h1, h2⟩
+        · exact ⟨d, List.mem_append_left _ (hp.pend_trace d hd), rfl, rfl⟩ }
+
+theorem EqPre.schedule {w : Wiring} {react : React Val} {t : SimTime} {roots : List Comp}
+    {tk : Ticker Val} {trace : List (Ev Val)} {l : List (Comp × Bool)} {ds : List (Dispatch Val)}
+    (h : EqPre w react t roots tk.inputs trace) (hroots : tk.roots = roots) (ht : tk.time = t)
+    (hs : Ticker.scheduleLoop w tk l = .ok ds) :
+    EqPre w react t roots tk.inputs (trace ++ ds.map Ev.dispatch) := by
+  obtain ⟨hspec, hups⟩ := scheduleLoop_spec hs
+  have hmem : ∀ d ∈ ds, ∃ e ∈ l, e.2 = false ∧ d = tk.decide e.1 := by
+    intro d hd
+    rw [hspec] at hd
+    obtain ⟨e, he, rfl⟩ := List.mem_map.1 hd
+    obtain ⟨he, hsel⟩ := List.mem_filter.1 he
+    simp only [Ticker.selects, Bool.and_eq_true, Bool.not_eq_true'] at hsel
+    exact ⟨e, he, hsel.1, rfl⟩
+  exact
+    { inputs := h.inputs.congr (by simp)
+      dec := by
+        intro pre d post htr
+        rcases append_eq_append_cons htr with ⟨post', h1, _⟩ | ⟨pre', h1, h2⟩
+        · exact h.dec _ _ _ h1
+        · have hd : d ∈ ds := by
+            have : Ev.dispatch d ∈ ds.map Ev.dispatch := by rw [h2]; simp
+            simpa using this
+          obtain ⟨e, _, _, hde⟩ := hmem d hd
+          refine ⟨tk, hroots, ht, h.inputs.congr ?_, ?_⟩
+          · intro a chs
+            rw [h1, List.mem_append]
+            constructor
+            · exact Or.inl
+            · rintro (hm | hm)
+              · exact hm
+              · have : Ev.answer a chs ∈ ds.map Ev.dispatch := by rw [h2]; simp [hm]
+                simp at this
+          · have : d.comp = e.1 := by rw [hde]; simp
+            rw [this]; exact hde
+      ups := by
+        intro d hd
+        rcases List.mem_append.1 hd with hd | hd
+        · exact h.ups d hd
+        · simp only [List.mem_map, Ev.dispatch.injEq, exists_eq_right] at hd
+          obtain ⟨e, he, hf, hde⟩ := hmem d hd
+          have : d.comp = e.1 := by rw [hde]; simp
+          rw [this]; exact hups e he hf
+      ans := by
+        intro a chs hm
+        simp only [List.mem_append, List.mem_map, reduceCtorEq, and_false, exists_false,
+          or_false] at hm
+        obtain ⟨d', h1, h2⟩ := h.ans a chs hm
+        exact ⟨d', List.mem_append_left _ h1, h2⟩ }
+
+/-- the ticker fields `init`/`step` leave alone or extend (complements `init_eq_ok`,
+`step_eq_ok`). -/
+theorem TickSys.init_tk {w : Wiring} {t : SimTime} {roots : List Comp} {s : TickSys Val}
+    (h : TickSys.init w t roots = .ok s) : s.tk.roots = roots ∧ s.tk.inputs = [] := by
+  simp only [TickSys.init, Ticker.call, Ticker.schedule] at h
+  cases hr : Ticker.scheduleLoop w (Ticker.startTick w t roots : Ticker Val)
+      (Ticker.startTick w t roots : Ticker Val).toUpdate with
+  | error e => simp [hr, Except.map] at h
+  | ok ds =>
+    simp only [hr, Except.map, Except.ok.injEq] at h
+    subst h
+    exact ⟨rfl, rfl⟩
+
+theorem TickSys.step_tk {w : Wiring} {react : React Val} {s s' : TickSys Val} {i : Nat}
+    (h : s.step w react i = some (.ok s')) {d : Dispatch Val} (hd : s.pending[i]? = some d) :
+    s'.tk.roots = s.tk.roots ∧
+      s'.tk.inputs = addInputs s.tk.inputs (w.route d.comp (answerOf react d)) := by
+  simp only [TickSys.step, hd, Option.some.injEq, Ticker.propagate] at h
+  by_cases h1 : (alookup s.tk.toUpdate d.comp).isNone = true
+  · simp [h1, Except.map] at h
+  · simp only [h1, Bool.false_eq_true, if_false] at h
+    by_cases h2 : d.time ≠ s.tk.time
+    · simp [h2, Except.map] at h
+    · simp only [h2, if_false, Ticker.schedule] at h
+      cases hr : Ticker.scheduleLoop w (s.tk.afterAnswer w d.comp (answerOf react d))
+          (aerase s.tk.toUpdate d.comp) with
+      | error e =>
+        simp only [Ticker.afterAnswer] at hr
+        simp [hr, Except.map] at h
+      | ok ds =>
+        simp only [Ticker.afterAnswer] at hr
+        simp only [hr, Except.map, Except.ok.injEq] at h
+        subst h
+        refine ⟨?_, ?_⟩
+        · dsimp only; split <;> rfl
+        · dsimp only; split <;> rfl
+
+/-- **The tick-equation invariant** of the closed system. -/
+structure EqInv (w : Wiring) (react : React Val) (t : SimTime) (roots : List Comp)
+    (s : TickSys Val) : Prop where
+  tk_roots : s.tk.roots = roots
+  pre : EqPre w react t roots s.tk.inputs s.trace
+
+theorem EqInv.init {w : Wiring} (react : React Val) {t : SimTime} {roots : List Comp}
+    {s : TickSys Val} (h : TickSys.init w t roots = .ok s) : EqInv w react t roots s := by
+  obtain ⟨ds, hs, _, _, _, _, htr⟩ := TickSys.init_eq_ok h
+  obtain ⟨hro, hin⟩ := TickSys.init_tk h
+  refine ⟨hro, ?_⟩
+  have := EqPre.schedule (tk := (Ticker.startTick w t roots : Ticker Val))
+    (EqPre.start w react t roots) rfl rfl hs
+  rw [hin, htr]
+  simpa using this
+
+theorem EqInv.step {w : Wiring} (hw : RouterOK w) {react : React Val} (hr : ReactWF react)
+    {t : SimTime} {roots : List Comp} {s s' : TickSys Val} {i : Nat} (hi : TickInv w t roots s)
+    (hs : EqInv w react t roots s) (h : s.step w react i = some (.ok s')) :
+    EqInv w react t roots s' := by
+  obtain ⟨d, ds, hd, _, _, hsl, _, _, _, _, htr⟩ := TickSys.step_eq_ok h
+  obtain ⟨hro, hin⟩ := TickSys.step_tk h hd
+  refine ⟨hro.trans hs.tk_roots, ?_⟩
+  have := EqPre.schedule (tk := s.tk.afterAnswer w d.comp (answerOf react d))
+    (hs.pre.answer hw hr hi.pre (List.mem_of_getElem? hd)) hs.tk_roots hi.time hsl
+  rw [hin, htr]
+  exact this
+
+theorem TickSys.Reachable.eqInv {w : Wiring} (hw : RouterOK w) {react : React Val}
+    (hr : ReactWF react) {t : SimTime} {roots : List Comp} {s : TickSys Val}
+    (hs : s.Reachable w react t roots) : EqInv w react t roots s := by
+  induction hs with
+  | init h => exact EqInv.init react h
+  | step hs' h ih => exact ih.step hw hr hs'.inv h
+
 end Tickit
